@@ -64,6 +64,30 @@ def observeon(n, ending, unsub):
             'INVARIANTS OrderOK OnWorker TerminalLast NothingLost NothingAfterUnsub\nPROPERTY WorkerExits\nCHECK_DEADLOCK FALSE\n' % (n, ending, 'TRUE' if unsub else 'FALSE'))
 
 
+def subscribeon(n, completes, unsub):
+    return ('SubscribeOn', 'subscribeon_%d_%s_%s' % (n, 'c' if completes else 'open', 'u' if unsub else 'n'),
+            'SPECIFICATION Spec\nCONSTANTS NItems = %d\n Completes = %s\n WithUnsub = %s\n HookInJob = FALSE\n'
+            'INVARIANTS OrderOK OnWorker NothingAfterUnsub NothingLost\nPROPERTY WorkerExits\nCHECK_DEADLOCK FALSE\n' % (n, 'TRUE' if completes else 'FALSE', 'TRUE' if unsub else 'FALSE'))
+
+
+def debounce(n):
+    return ('Debounce', 'debounce_%d' % n,
+            'SPECIFICATION Spec\nCONSTANTS D = 100\n Gaps = {40, 90, 110, 260}\n MaxEvents = %d\n ReadNotTake = FALSE\n'
+            'INVARIANTS OnlyEmitted InOrderNoneTwice NothingAfterEnd ExitWithinOnePeriod\nPROPERTY WorkerExits\nCHECK_DEADLOCK FALSE\n' % n)
+
+
+def refcountconc(leavers, stayers):
+    return ('RefCountConc', 'refcountconc_%dl_%ds' % (leavers, stayers),
+            'SPECIFICATION Spec\nCONSTANTS Leavers = {%s}\n Stayers = {%s}\n Recheck = TRUE\nINVARIANTS AtMostOneSource PresentMeansConnected EmptyMeansReleased\nCHECK_DEADLOCK FALSE\n'
+            % (', '.join(str(i) for i in range(1, leavers + 1)), ', '.join(str(i) for i in range(leavers + 1, leavers + stayers + 1))))
+
+
+def zipconc(n, items):
+    return ('ZipConc', 'zipconc_%dx%d' % (n, items),
+            'SPECIFICATION Spec\nCONSTANTS NInputs = %d\n NItems = %d\n EmitUnderLock = FALSE\nINVARIANTS RowsPairPositions NoRowTwice AllRowsEmitted RowsInOrder\nCHECK_DEADLOCK FALSE\n' % (n, items),
+            'RowsInOrder (KF-C11-zip-reorder)')
+
+
 def timedops(n):
     return ('TimedOps', 'timedops_%d' % n,
             'SPECIFICATION Spec\nCONSTANTS D = 100\n Gaps = {40, 90, 110, 260}\n MaxEvents = %d\n CancelOnEnd = TRUE\n ArmAfterEnd = FALSE\n'
@@ -79,16 +103,16 @@ def sinkind(n):
 CONC = {
     # property: (monitor flags of ConcProps.Judge, design-level models quick, thorough)
     'C19': (['C19'], [sinkconc(2, 2, C19INV), sinkconc(2, 1, C19INV, fin=True), sinkind(3)], [sinkconc(2, 2, C19INV), sinkconc(3, 1, C19INV), sinkconc(2, 3, C19INV), sinkconc(2, 2, C19INV, fin=True), sinkind(5)]),
-    'C11': (['C11', 'C19'], [sinkconc(2, 2, ['AtMostOneTerminal']), combconc(3, 1, False), combconc(3, 2, True)],
-            [sinkconc(3, 1, ['AtMostOneTerminal']), combconc(3, 2, False), combconc(4, 1, False), combconc(3, 3, True)]),
+    'C11': (['C11', 'C19'], [sinkconc(2, 2, ['AtMostOneTerminal']), combconc(3, 1, False), combconc(3, 2, True), zipconc(2, 2)],
+            [sinkconc(3, 1, ['AtMostOneTerminal']), combconc(3, 2, False), combconc(4, 1, False), combconc(3, 3, True), zipconc(2, 3), zipconc(3, 2)]),
     'C07': (['C07'], [schedqueue(2, 2, '{11}', 'deadlock_2x2')], [schedqueue(2, 3, '{11}', 'deadlock_2x3'), schedqueue(3, 1, '{11}', 'deadlock_3x1')]),
     'C08': (['C08'], [schedqueue(2, 2, '{11}', '2x2_abort_inside')], [schedqueue(2, 2, '{11}', '2x2_abort_inside'), schedqueue(2, 3, '{}', '2x3'), schedqueue(3, 1, '{11}', '3x1')]),
-    'C09': (['C09'], [schedqueue(1, 3, '{13}', 'handoff_1x3_abort_in_last'), observeon(3, 'c', False), observeon(2, 'e', True)],
-            [schedqueue(1, 3, '{13}', 'handoff_1x3_abort_in_last'), schedqueue(2, 2, '{}', 'handoff_2x2'), observeon(4, 'c', True), observeon(4, 'e', True), observeon(3, 'none', True)]),
-    'C15': (['C15'], [schedqueue(1, 2, '{12}', 'lifecycle'), timedops(3), observeon(2, 'none', True)], [schedqueue(2, 2, '{11}', 'lifecycle2'), timedops(4), observeon(3, 'e', True), observeon(3, 'none', True)]),
-    'C16': (['C16'], [timedops(3)], [timedops(4)]),
+    'C09': (['C09'], [schedqueue(1, 3, '{13}', 'handoff_1x3_abort_in_last'), observeon(3, 'c', False), observeon(2, 'e', True), subscribeon(3, True, False), subscribeon(2, True, True)],
+            [schedqueue(1, 3, '{13}', 'handoff_1x3_abort_in_last'), schedqueue(2, 2, '{}', 'handoff_2x2'), observeon(4, 'c', True), observeon(4, 'e', True), observeon(3, 'none', True), subscribeon(4, True, True), subscribeon(3, False, True)]),
+    'C15': (['C15'], [schedqueue(1, 2, '{12}', 'lifecycle'), timedops(3), observeon(2, 'none', True), subscribeon(2, False, True)], [schedqueue(2, 2, '{11}', 'lifecycle2'), timedops(4), observeon(3, 'e', True), observeon(3, 'none', True)]),
+    'C16': (['C16'], [timedops(3), debounce(3)], [timedops(4), debounce(4)]),
     'C18': (['C18'], [tovec(2, False), tovec(2, True)], [tovec(4, False), tovec(4, True)]),
-    'C13': (['C13'], [], []),
+    'C13': (['C13'], [refcountconc(2, 1)], [refcountconc(3, 1), refcountconc(2, 2)]),
     'C04': (['C04'], [], []),
     'C06': (['C06'], [], []),
     'C14': (['C14'], [], []),
